@@ -11,6 +11,7 @@ import (
 	sdb "github.com/alicebob/sqlittle/db"
 )
 
+//verif:prop C06,C07
 //verif:shards 7
 //verif:bounds the C02 databases (2 rows in leaves / 4 rows over interior pages); 7 entry points; exit paths: normal, callback stops at row j, callback panics at row j, k-th page read fails (k symbolic), lock acquisition fails
 func VH_C06_protocol() {
